@@ -12,8 +12,10 @@ extern char **environ;
 struct C20 : Harness {
     Api api = static_api();
     std::string tools, tmp;
+    bool bigfile = false;     // thorough tier: now and then an input file of more than 4 GiB (sparse)
     void configure(const std::map<std::string, std::string> &kv) override {
         if (kv.count("tools")) tools = kv.at("tools");
+        if (kv.count("bigfile")) bigfile = kv.at("bigfile") == "1";
         char t[] = "/tmp/skv-c20-XXXXXX";
         const char *base = getenv("SKV_TMP");
         std::string templ = std::string(base ? base : "/tmp") + "/c20-XXXXXX";
@@ -53,9 +55,18 @@ struct C20 : Harness {
     }
 
     rc::Gen<Program> gen() override {
-        return rc::gen::exec([]() {
+        bool bf = bigfile;
+        return rc::gen::exec([bf]() {
             Program p;
             int tool = *irange(0, 2);   // 0 ctr, 1 tweak, 2 ecb
+            if (bf && *chance(4)) {
+                // an all-zero input of 2^32 + k bytes (sparse on disk); checked by length and by sampled blocks
+                int bs = *rc::gen::element(8, 16);
+                Op c = mkop("tool");
+                c.set("tool", tool).set("bs", bs).set("bflag", 1).set("order", 0).set("key", *gbytes((size_t)bs)).set("file", Bytes()).set("bigzero", (1LL << 32) + *irange(1, 5000));
+                p.push_back(c);
+                return p;
+            }
             int bs = *rc::gen::element(8, 16);
             bool bflag = bs == 8 || *chance(50);     // block size 128 is the default
             int maxk = tool == 1 ? 2 * bs : 3 * bs;
@@ -118,6 +129,44 @@ struct C20 : Harness {
         return out;
     }
 
+    // more than 4 GiB of zero bytes through a tool: output length and sampled blocks against the library
+    std::string run_big(const Op &c, int tool, int bs, const Bytes &key, const std::string &in, const std::string &out, Stats &st, const std::string &sertext) {
+        static const char *names[3] = {"skinny-ctr", "skinny-tweak", "skinny-ecb"};
+        size_t len = (size_t)c.geti("bigzero");
+        { int fd = open(in.c_str(), O_WRONLY | O_CREAT | O_TRUNC, 0644); if (fd < 0 || ftruncate(fd, (off_t)len) != 0) { if (fd >= 0) close(fd); return ""; } close(fd); }
+        int rc = run_tool(names[tool], {"-b", bs == 8 ? "64" : "128", "-k", hex(key), in, out});
+        std::string res;
+        if (rc != 0) res = std::string(names[tool]) + " exited with status " + std::to_string(rc) + " for an input of " + std::to_string(len) + " bytes";
+        struct stat sb; size_t want_len = tool == 0 ? len : len / bs * bs;
+        if (res.empty() && (stat(out.c_str(), &sb) != 0 || (size_t)sb.st_size != want_len))
+            res = std::string(names[tool]) + ": output has " + std::to_string(stat(out.c_str(), &sb) == 0 ? (long long)sb.st_size : -1LL) + " bytes, expected " + std::to_string(want_len) + " for an input of " + std::to_string(len);
+        if (res.empty()) {
+            FILE *f = fopen(out.c_str(), "rb");
+            uint64_t x = 88172645463325252ULL;
+            std::vector<size_t> blocks = {0, 1, (size_t)((1ULL << 32) / bs) - 1, (size_t)((1ULL << 32) / bs), (size_t)((1ULL << 32) / bs) + 1, want_len / bs - 1};
+            for (int i = 0; i < 200; ++i) { x ^= x << 13; x ^= x >> 7; x ^= x << 17; blocks.push_back((size_t)(x % (want_len / bs))); }
+            for (size_t b : blocks) {
+                if (!res.empty() || !f) break;
+                uint8_t got[16], zero[16] = {0}, wantb[16];
+                if (fseeko(f, (off_t)(b * bs), SEEK_SET) != 0 || fread(got, 1, (size_t)bs, f) != (size_t)bs) { res = "cannot read block " + std::to_string(b) + " of the output"; break; }
+                if (tool == 0) {
+                    uint8_t ctr[16] = {0}; uint64_t v = b; for (int i = bs - 1; i >= 0 && v; --i) { ctr[i] = (uint8_t)v; v >>= 8; }
+                    Bytes k = lib_ecb(bs, key, Bytes(ctr, ctr + bs), false); memcpy(wantb, k.data(), (size_t)bs);
+                } else if (tool == 1) {
+                    Bytes tw(bs, 0); uint64_t v = b; for (int i = bs - 1; i >= 0 && v; --i) { tw[(size_t)i] = (uint8_t)v; v >>= 8; }
+                    Skinny128TweakedKey_t k128; Skinny64TweakedKey_t k64;
+                    if (bs == 16) { api.skinny128_set_tweaked_key(&k128, key.data(), (unsigned)key.size()); api.skinny128_set_tweak(&k128, tw.data(), 16); api.skinny128_ecb_encrypt(wantb, zero, &k128.ks); }
+                    else { api.skinny64_set_tweaked_key(&k64, key.data(), (unsigned)key.size()); api.skinny64_set_tweak(&k64, tw.data(), 8); api.skinny64_ecb_encrypt(wantb, zero, &k64.ks); }
+                } else { Bytes k = lib_ecb(bs, key, Bytes(zero, zero + bs), false); memcpy(wantb, k.data(), (size_t)bs); }
+                if (memcmp(got, wantb, (size_t)bs) != 0) res = std::string(names[tool]) + ": block " + std::to_string(b) + " of the output for a " + std::to_string(len) + "-byte input differs from the library";
+            }
+            if (f) fclose(f);
+        }
+        unlink(in.c_str()); unlink(out.c_str());
+        if (res.empty() && !st.shrinking) { st.count("input>4GiB"); st.case_done(sertext, true); }
+        return res;
+    }
+
     std::string run(const Program &p, Stats &st) override {
         const Op &c = p[0];
         int tool = (int)c.geti("tool"), bs = (int)c.geti("bs");
@@ -128,6 +177,7 @@ struct C20 : Harness {
         write_file(in, std::string(file.begin(), file.end()));
         std::vector<std::string> base;
         if (c.geti("bflag")) { base.push_back("-b"); base.push_back(bs == 8 ? "64" : "128"); }
+        if (c.geti("bigzero")) return run_big(c, tool, bs, key, in, out, st, ser(p));
         int inv = (int)c.geti("invalid");
         if (inv) {
             std::vector<std::string> a = base;
